@@ -1,8 +1,8 @@
 #!/bin/sh
 # tools/evalbatch.sh C02 C04 ...   evaluate both candidates of each property (quick tier)
 cd "$(dirname "$0")/.." || exit 2
-for p in "$@"; do for n in 1 2; do
-  d=/tmp/wt/$p/_seed/$n
+for p in "$@"; do for n in ${NS:-1 2}; do
+  d=${WT:-/tmp/wt}/$p/_seed/$n
   [ -f $d/patch.diff ] || { echo "$p/$n missing"; continue; }
   python3 tools/evalseed.py $d $p ${ALSO:+--also $ALSO} ${TIER:+--tier $TIER} 2>&1 | python3 -c "
 import json,sys
